@@ -3,7 +3,8 @@
 Decides: who may write the covered map; the guard that dominates the write; the
 replacement rule of `_is_better_than_current` as a truth table over its atoms
 (error-free override and strictly-shorter); MIO capacity discipline; the
-DynaMOSA goal manager keeps every uncovered goal.  C13.aliasing: archived solutions reach
+DynaMOSA goal manager keeps every uncovered goal.  C13.iterable: update archives the same goals for a list, a tuple, an iterator and a
+generator of the same solutions.  C13.aliasing: archived solutions reach
 local search, which edits test cases in place, only through clone().  Re-execution behaviour of
 archived tests is not decided.
 """
@@ -158,6 +159,8 @@ def check(ctx) -> None:
     ctx.rule("C13.mio-cap", "MIO: _solutions grows only under `len < capacity` or after capacity:=1 + clear; a covered population never changes its capacity; is_covered requires exactly one solution", floor=5)
     ctx.rule("C13.aliasing", "TAINT: archived solutions reach an in-place search operator (local search) only through clone()", floor=1)
     _archive_aliasing(ctx, repo)
+    ctx.rule("C13.iterable", "ABSINT: CoverageArchive.update archives the same goals for a list, a tuple, a one-shot iterator and a generator of the same solutions", floor=3)
+    _one_shot(ctx, repo)
     ctx.rule("C13.goals", "DynaMOSA goal manager re-adds every uncovered current goal and adds children only of covered goals", floor=2)
 
     ca = repo.cls(AR, "CoverageArchive")
@@ -304,3 +307,42 @@ def check(ctx) -> None:
         )
     ctx.check("C13.goals", top_if or lp, ok_keep, "an uncovered current goal is not carried over to the next goal set: it can never be covered again", what="uncovered current goals are kept")
     ctx.check("C13.goals", top_if or lp, ok_children, "children are not added exactly for covered goals", what="children added only for covered goals", stmt="[children]")
+
+
+def _one_shot(ctx, repo) -> None:
+    """CoverageArchive.update is typed for any Iterable: interpreted with a list and with a one-shot iterator of the same
+    solutions it archives the same goals."""
+    from sa.engine import peval
+
+    fn = repo.func(AR, "CoverageArchive.update")
+    ctx.analysed(fn)
+    mod = repo.module(AR)
+    better = repo.func(AR, "CoverageArchive._is_better_than_current")
+
+    def run(make_iterable):
+        res = peval.Obj("result", fields={"timeout": False})
+        res.methods["has_test_exceptions"] = lambda: False
+        sols = []
+        for i, covers in enumerate((("g0", "g1"), ("g1", "g2"))):
+            o = peval.Obj(f"s{i}")
+            o.methods["get_is_covered"] = lambda g, covers=covers: g in covers
+            o.methods["get_last_execution_result"] = lambda res=res: res
+            o.methods["size"] = lambda i=i: 3 + i
+            sols.append(o)
+        goals = ["g0", "g1", "g2", "g3"]
+        selfobj = peval.Obj("CoverageArchive", fields={"_objectives": list(goals), "_covered": {}, "_uncovered": list(goals), "_logger": peval.Obj("logger", methods={"debug": lambda *a, **k: None})})
+        selfobj.methods["_on_target_covered"] = lambda g: None
+        it = peval.Interp(resolver=peval.repo_resolver(repo), max_steps=50000)
+        selfobj.methods["_is_better_than_current"] = lambda a, b: it.run_function(better, [a, b], {}, mod)
+        it.run_function(fn, [selfobj, make_iterable(sols)], {}, mod)
+        return sorted(selfobj.fields["_covered"]), sorted(selfobj.fields["_uncovered"])
+
+    try:
+        want = run(list)
+        for label, mk in (("a one-shot iterator", iter), ("a generator", lambda s: (x for x in s)), ("a tuple", tuple)):
+            got = run(mk)
+            ctx.check("C13.iterable", fn, got == want, f"[update with {label}] archives {got[0]} (uncovered {got[1]}), with a list of the same solutions {want[0]} (uncovered {want[1]}): the solutions are iterated once per objective, an iterator is exhausted after the first one - goals covered by the given solutions are not recorded as covered", what=f"[update with {label}] same goals archived as with a list", stmt=f"[update with {label}]")
+    except peval.Undecided as exc:
+        ctx.undecide("C13.iterable", fn, str(exc))
+    except peval.Raises as exc:
+        ctx.fail("C13.iterable", fn, f"update raises {exc.name} {exc.detail[:60]}", stmt="[update] raises")
